@@ -229,8 +229,14 @@ class C19(Check):
         sch.update(0, np.zeros((1, 2)), np.array([obs[0]]), None)
         ref_best = obs[0]
         for k, x in enumerate(obs[1:]):
-            rew = env.get_reward(np.zeros(2), x)
             want, nb = ref_reward(ref_best, x)
+            try:
+                rew = env.get_reward(np.zeros(2), x)
+            except Exception as e:  # noqa: BLE001
+                res.add("reward-rule", f"raises:{type(e).__name__}",
+                        f"observation #{k + 1} = {x!r} against reference best {ref_best!r} (sequence {obs[:k + 2]}): get_reward raised "
+                        f"{type(e).__name__}: {e}; the rule gives {want!r}")
+                return steps
             if not close(rew, want):
                 res.add("reward-rule", "improving" if x < ref_best else "non-improving",
                         f"observation #{k + 1} = {x!r} against reference best {ref_best!r} (sequence {obs[:k + 2]}): reward {rew!r}, rule gives {want!r}")
